@@ -155,6 +155,9 @@ func ptrPool() []any {
 		"true", "yes", storex.Rule{Name: "n"}, byte(9), rune(10))
 }
 
+// ptrPoolEq: the pool (indices unchanged) followed by the equality-adversarial pointees (eqvals.go).
+func ptrPoolEq() []any { return append(ptrPool(), eqProbes()...) }
+
 // runPtrCtors: the clause "a pointer passed to a pointer-typed schema comes back as the same pointer (and what it points at
 // is untouched)" over every zero-argument pointer constructor of the library.
 func runPtrCtors(o *hx.Out) {
@@ -162,7 +165,11 @@ func runPtrCtors(o *hx.Out) {
 	for _, b := range storex.Bases() {
 		inBases[b.Name] = true
 	}
-	for _, c := range ptrCtorTable {
+	nPool := len(ptrPool())
+	for _, c := range append(append([]struct {
+		name string
+		mk   func() any
+	}{}, ptrCtorTable...), eqCtors...) {
 		if inBases[c.name] {
 			continue // run by the class `ptr` above
 		}
@@ -180,7 +187,7 @@ func runPtrCtors(o *hx.Out) {
 			ow = 1
 		}
 		hit := false
-		for pi, val := range ptrPool() {
+		for pi, val := range ptrPoolEq() {
 			if val == nil || reflect.TypeOf(val).Kind() == reflect.Ptr {
 				continue
 			}
@@ -189,7 +196,7 @@ func runPtrCtors(o *hx.Out) {
 			}
 			for _, entry := range []string{"parse", "strict"} {
 				pp := reflect.New(reflect.TypeOf(val))
-				pp.Elem().Set(reflect.ValueOf(ptrPool()[pi]))
+				pp.Elem().Set(reflect.ValueOf(ptrPoolEq()[pi]))
 				inp := pp.Interface()
 				before := storex.DeepHash(inp)
 				look := storex.Canon(pp.Elem().Interface())
@@ -205,6 +212,9 @@ func runPtrCtors(o *hx.Out) {
 				hit = true
 				o.Emit(fmt.Sprintf("c15 ptr %s %d %s #%s.ctor pool=%d%s %s", entry, ow, want, c.name, pi, cm, typ(s)), u+" "+same)
 				o.Count("ptr:ctor:" + entry)
+				if pi >= nPool {
+					o.Count("ptr:ctor:eq-adversarial-pointee")
+				}
 			}
 		}
 		if !hit {
